@@ -227,7 +227,7 @@ def resolve_missing(unit, gen, res, log):
           log.append({"name": key, "how": "std function without vstd specification: contract-less assume_specification added (arbitrary result)"})
       continue
     m = re.search(r"cannot find (value|function) `([A-Za-z_][A-Za-z0-9_]*)` in this scope", msg)
-    m2 = re.search(r"no (?:function or associated item|method|associated item|associated function or constant) named `([A-Za-z_][A-Za-z0-9_]*)` found for (?:struct|enum|reference|type) `&?(?:mut )?([A-Za-z_][A-Za-z0-9_:]*)", msg)
+    m2 = re.search(r"no (?:function or associated item|method|associated item|associated function or constant) named `([A-Za-z_][A-Za-z0-9_]*)` found for (?:struct|enum|reference|mutable reference|type) `&?(?:mut )?([A-Za-z_][A-Za-z0-9_:]*)", msg)
     if not m and not m2:
       continue
     name = m.group(2) if m else m2.group(1)
